@@ -155,7 +155,10 @@ fn runn<T: QElem>(c: &CaseN, dev: u32, lx: &mut Local) {
     for (j, lane) in lanes.iter().enumerate() {
         let pat = &wos[(c.family * m.max(1) + j) % wos.len()];
         for (k, &fi) in lane.iter().enumerate() {
-            data[fi] = table[pat[k] as usize].clone();
+            // a per-lane offset (where the type has room) makes the lanes distinguishable, so a result stored at
+            // another lane's position or taken from another lane is visible
+            let base = table[pat[k] as usize].clone();
+            data[fi] = if T::NAME == "u8" { base } else { base + T::from_usize(3_000_000 * (j % 5)).unwrap() };
         }
     }
     let sorted_lanes: Vec<Vec<T>> = lanes
